@@ -398,6 +398,33 @@ def c04f(ck, prog):
     add = ap.calls_to(r"FangsList::add$")
     rec = [c for c in ap.calls() if c.callee == apkey]
     ok = len(add) == 1 and len(rec) == 1 and all(ap.dominates(add[0].bb, r) for r in ap.exits()) and not [fa for fa in guards.facts_at(ap, prog, add[0].bb) if fa.kind in ("cmp", "boolcall", "boolplace") or (fa.kind == "variant" and fa.allowed == {"Some"} and "handler" in guards.describe_origin(ap, fa.steps))]
+    if ok and rec:
+        # ... for every child: the recursive call is under no condition other than the child iterator's own `Some`, and that
+        # iterator runs over the whole child list (no skip / filter / take adapter)
+        extra = []
+        for fa in guards.facts_at(ap, prog, rec[0].bb):
+            if fa.kind in ("cmp", "boolcall", "boolplace", "int"):
+                extra.append(fa.kind)
+            elif fa.kind == "variant" and not getattr(fa, "derived", None) and not (fa.steps and fa.steps[-1][0] == "call" and fa.steps[-1][1].name == "next"):
+                extra.append("match")
+        src = ""
+        for c in ap.calls():
+            if c.name == "next" and ap.dominates(c.bb, rec[0].bb):
+                src = decision.describe_deep(ap, c.args[0], 6)
+        adapters = re.findall(r"\b(skip|skip_while|take|take_while|filter|filter_map|step_by|rev|peekable)\(", src)
+        ok = not extra and not adapters and ("children" in src or not src)
+        # (path form: a condition written with `||` reaches the call over two edges, none of which dominates it) from the
+        # `Some(child)` edge, the iterator is not advanced again without the recursive call
+        for c in ap.calls():
+            if c.name == "next" and ap.dominates(c.bb, rec[0].bb):
+                sws = [fa.sw_bb for fa in guards.facts_at(ap, prog, rec[0].bb) if fa.kind == "variant" and fa.allowed == {"Some"} and fa.steps and fa.steps[-1][0] == "call" and fa.steps[-1][1].bb == c.bb]
+                if not sws:
+                    # no dominating Some edge at all: find the switch on the iterator's answer
+                    sws = [sb for sb in ap.live_blocks() if ap.blocks[sb]["t"]["k"] == "switch" and ap.dominates(c.bb, sb) and ap.dominates(sb, rec[0].bb) and re.search(r"^discr\(next\(", decision.describe_deep(ap, ap.blocks[sb]["t"]["discr"], 2))]
+                for sb in sws[:1]:
+                    for tb, lab in ap.succ(sb):
+                        if rec[0].bb in ap.reachable_from(tb) and c.bb in ap.reachable_from(tb, avoid=(rec[0].bb,)):
+                            ok = False
     ck.ob(R, "apply_fangs:every-node", ok, ap.loc(None), "" if ok else "Node::apply_fangs does not add the fangs to every node of the subtree (also handler-less ones, which serve the 404s)", how="recurse into children; self.fangses.add(id, fangs) unconditionally")
     # ... in every per-method tree the router serves requests from: the fields of base::Router that are routing trees
     from .C01 import apply_fangs_trees
